@@ -283,6 +283,58 @@ def tree_touched_only_through_groups(facts, cls, res):
         raise AnalysisBroken("%s: only %d calls on the tree parameter recognised" % (cls, n))
 
 
+def no_tree_derived_state(facts, cls, res, R="C12.5.state-between-stages"):
+    """C12.5 for the tree executors, second half: a stage function writes no data member of the executor other than the kernel
+    object(s).  The tree offers no change notification, so anything an executor remembers about the tree from one execute() to
+    the next (interaction lists, group positions, counts) cannot be invalidated when rebuild() or another tree changes the
+    cells behind the same group positions: a later execution would replay it against other cells."""
+    fields = {f["name"]: f for f in facts.cls(cls)["fields"]}
+    kernel_members = {n for n, f in fields.items() if "KernelClass" in f.get("t", "") or "kernel" in f.get("t", "").lower()}
+    n = 0
+    helpers = {}
+    for m in facts.methods_of(cls):
+        if tbf.body(m) is not None:
+            helpers.setdefault(m["name"], []).append(m)
+    for m in facts.methods_of(cls):
+        b = tbf.body(m)
+        if b is None or m["kind"] in ("CXXConstructor", "CXXDestructor"):
+            continue
+        if not any("TreeClass" in p["t"] for p in m["params"]):
+            continue
+        n += 1
+
+        def member_of(nd):
+            nd = strip(nd)
+            while nd is not None and nd.get("k") in ("ArraySubscriptExpr", "CXXOperatorCallExpr") and len(kids(nd)) >= 2:
+                nd = strip(kids(nd)[-2])
+            if nd is not None and nd.get("k") in ("MemberExpr", "CXXDependentScopeMemberExpr") and nd.get("name") in fields and (not kids(nd) or strip(kids(nd)[0]).get("k") == "CXXThisExpr"):
+                return nd["name"]
+            return None
+        for x in walk(b):
+            hit = None
+            if x.get("k") in ("BinaryOperator", "CompoundAssignOperator", "CXXOperatorCallExpr") and x.get("op", "").endswith("=") and x.get("op") not in ("==", "!=", "<=", ">="):
+                mm = member_of(kids(x)[0] if x.get("k") != "CXXOperatorCallExpr" else kids(x)[1])
+                if mm:
+                    hit = (mm, "assigned")
+            if x.get("k") in ("CallExpr", "CXXMemberCallExpr"):
+                base = tbf.call_base(x)
+                nm = tbf.callee_name(x)
+                if base is not None and member_of(base) and nm in RESETTERS | {"emplace_back", "push_back", "insert", "reserve", "emplace"}:
+                    hit = (member_of(base), "modified by .%s()" % nm)
+                if base is None or strip(base).get("k") == "CXXThisExpr":
+                    for g in helpers.get(nm, []):
+                        for p_, a in zip(g["params"], tbf.call_args(x)):
+                            if member_of(a) and p_["t"].rstrip().endswith("&") and not p_["t"].lstrip().startswith("const "):
+                                hit = (member_of(a), "handed as a mutable reference to %s()" % nm)
+            if hit and hit[0] not in kernel_members:
+                res.violation(R, tbf.rel(facts.path_of(x)), m["qname"], "executor-state:%s" % hit[0], x["l"][1],
+                              "stage function %s keeps state in the executor: member '%s' is %s. The tree gives no change notification, so what is remembered about it survives rebuild() / a second tree "
+                              "and a later execute() replays it against other cells; every execution must depend on the tree and the kernels only" % (m["name"], hit[0], hit[1]))
+    res.instance(R, cls + " members", "src/algorithms", "%d stage functions write no member other than the kernel object(s) %s" % (n, sorted(kernel_members)))
+    if n < 6:
+        raise AnalysisBroken("%s: only %d stage functions with a tree parameter" % (cls, n))
+
+
 def run(res, tier):
     facts = tbf.scan("core")
     res.units.append("umbrella TU 'core' (%d headers, %d function patterns)" % (len(facts.headers), len(facts.functions)))
@@ -298,6 +350,7 @@ def run(res, tier):
         ex = check_executor(facts, cls, res, stages.FLAG_NAMES, weff)
         nguard += len(ex.guarded) + len(ex.unguarded)
         tree_touched_only_through_groups(facts, cls, res)
+        no_tree_derived_state(facts, cls, res)
     res.rule("C12.5 the top-tree executors' virtual-level expansions (state between execute() calls) are modified only through the kernel operators")
     for cls in TOPTREE:
         ex = check_executor(facts, cls, res, ["TbfM2M", "TbfM2L", "TbfL2L"], None, full=False)
